@@ -38,6 +38,7 @@ CONSTANTS
   CAPS2,         \* capability sets advertised after STARTTLS
   LOGAUTH,       \* subset of BOOLEAN: WithLogAuthData
   LOGGERS,       \* debug logger implementations: subset of {"capture","std","json"}
+  FALLBACK,      \* subset of BOOLEAN: is a fallback port configured (WithTLSPortPolicy)
   DEV_ImplicitDot, DEV_NoRsetAfterDataReject, DEV_ContinueAfterRsetFail,
   DEV_LeakOnDialError, DEV_QuitFailureLeavesConn, DEV_NoDeadlineInDial,
   DEV_NoopBeforeDeadline, DEV_WindowStaysOpen
@@ -65,7 +66,7 @@ OkCode(v) == CASE v = "DATA" -> 354 [] v = "QUIT" -> 221 [] v \in {"GREET", "STA
 OkChoice == [c |-> "ok", sh |-> "none"]
 EnvChoices == {OkChoice} \cup
               (IF env.budget > 0
-               THEN {[c |-> c, sh |-> IF c \in {"t4", "p5"} THEN s ELSE "none"] : c \in CLASSES \ {"mal"}, s \in SHAPES}
+               THEN {[c |-> c, sh |-> IF c \in {"t4", "p5"} THEN s ELSE "none"] : c \in CLASSES \ {"mal", "refuse", "cstall"}, s \in SHAPES}
                ELSE {})
 DialFaults  == OP \notin {"Send", "Reset"}     \* in Send / Reset mode the dial is the clean prefix
 DialChoices == IF DialFaults THEN EnvChoices ELSE {OkChoice}
@@ -183,10 +184,10 @@ Reveals(mch, j) == (mch \in {"PLAIN", "XOAUTH2"} /\ j = 0) \/ (mch = "LOGIN" /\ 
 Cfgs ==
   {[op |-> OP, nr |-> nr, enc8 |-> e8, rf |-> rf, caps |-> cs, dsn |-> d, nonoop |-> nn, cs |-> rot,
     policy |-> pol, authtype |-> at, noenc |-> NoEncType(at), hostkind |-> hk, logauth |-> la,
-    debug |-> (at # "NOAUTH"), logger |-> lg, starttls |-> st, authlist |-> al, hs |-> hs, caps2 |-> c2] :
+    debug |-> (at # "NOAUTH"), logger |-> lg, fallback |-> fb, starttls |-> st, authlist |-> al, hs |-> hs, caps2 |-> c2] :
      nr \in [1..N -> 1..MAXR], e8 \in [1..N -> ENC8], rf \in [1..N -> {"ok"} \cup RENDERKINDS],
      cs \in CAPSETS, d \in DSNS, nn \in NONOOP, rot \in CODESETS, pol \in POLICIES, at \in AUTHTYPES,
-     hk \in HOSTKINDS, la \in LOGAUTH, st \in STARTTLSADV, al \in AUTHLISTS, hs \in HANDSHAKES, c2 \in CAPS2, lg \in LOGGERS}
+     hk \in HOSTKINDS, la \in LOGAUTH, st \in STARTTLSADV, al \in AUTHLISTS, hs \in HANDSHAKES, c2 \in CAPS2, lg \in LOGGERS, fb \in FALLBACK}
 
 (* what the server puts into an EHLO reply *)
 Advertised(enc) ==
@@ -212,12 +213,22 @@ DialFail(o) == IF DEV_LeakOnDialError THEN o ELSE CloseConn(o)
 -----------------------------------------------------------------------------
 (* dial phase: client.go:1003 DialToSMTPClientWithContext                  *)
 
+(* client.go:1027: dial the primary port; when that fails and a fallback port is configured, dial *)
+(* the fallback port.  The environment may refuse the primary port (class "refuse").             *)
 DialConnect ==
   /\ cl.pc = "dial"
-  /\ LET o1 == ObsAll(obs, << [ev |-> "call", op |-> DialOp], [ev |-> "open"] >>) IN
-     IF DEV_NoDeadlineInDial THEN obs' = o1 /\ Goto("greeting")
-     ELSE obs' = SetDl(o1, TRUE) /\ cl' = [cl EXCEPT !.pc = "greeting", !.armed = TRUE]
-  /\ UNCHANGED <<env, cfg>>
+  /\ UNCHANGED cfg
+  /\ \E refused \in (IF DialFaults /\ env.budget > 0 /\ "refuse" \in CLASSES THEN BOOLEAN ELSE {FALSE}) :
+       LET o0 == Observe(obs, [ev |-> "call", op |-> DialOp])
+           e1 == IF refused THEN [env EXCEPT !.budget = @ - 1, !.nfault = @ + 1,
+                                             !.hist = Append(@, [v |-> "DIAL", m |-> 0, r |-> 0, c |-> "refuse", sh |-> "none"])]
+                 ELSE env IN
+       /\ env' = e1
+       /\ IF refused /\ ~(cfg.fallback /\ cfg.policy = "opportunistic")   \* SetTLSPortPolicy: 587, fallback 25 only when opportunistic
+          THEN obs' = o0 /\ cl' = [cl EXCEPT !.pc = "dialRet", !.top = "dial", !.dead = TRUE]
+          ELSE LET o1 == Observe(o0, [ev |-> "open"]) IN
+               IF DEV_NoDeadlineInDial THEN obs' = o1 /\ Goto("greeting")
+               ELSE obs' = SetDl(o1, TRUE) /\ cl' = [cl EXCEPT !.pc = "greeting", !.armed = TRUE]
 
 (* smtp.NewClient reads the greeting and closes the connection itself when *)
 (* it is not a 220                                                         *)
@@ -322,7 +333,7 @@ AuthStart ==
   /\ cl.pc = "authStart"
   /\ UNCHANGED <<env, cfg>>
   /\ obs' = obs
-  /\ IF cl.mech \in {"PLAIN", "LOGIN"} /\ ~cfg.noenc /\ ~cl.tls /\ cfg.hostkind # "localhost"
+  /\ IF cl.mech \in {"PLAIN", "LOGIN"} /\ ~cfg.noenc /\ ~cl.tls /\ cfg.hostkind \notin LocalKinds
      THEN cl' = [cl EXCEPT !.pc = "authQuit", !.authWin = ~cfg.logauth]
      ELSE cl' = [cl EXCEPT !.pc = "authMsg", !.astep = 0, !.authWin = ~cfg.logauth]
 
@@ -478,11 +489,20 @@ CmdData ==
 (* connection so that the server discards the fragment.                    *)
 WriteContent ==
   /\ cl.pc = "content"
-  /\ UNCHANGED <<env, cfg>>
-  /\ IF cfg.rf[cl.m] = "ok" THEN Goto("closeData") /\ obs' = obs
-     ELSE IF DEV_ImplicitDot
-     THEN obs' = obs /\ cl' = [cl EXCEPT !.se[cl.m] = LocalErr("writecontent"), !.pc = "nextMsg", !.dotOpen = cl.m]
-     ELSE obs' = CloseConn(obs) /\ cl' = [cl EXCEPT !.se[cl.m] = LocalErr("writecontent"), !.pc = "nextMsg", !.dead = TRUE]
+  /\ UNCHANGED cfg
+  /\ IF cfg.rf[cl.m] = "ok"
+     THEN \E stalled \in (IF env.budget > 0 /\ "cstall" \in CLASSES THEN BOOLEAN ELSE {FALSE}) :
+          IF ~stalled THEN Goto("closeData") /\ obs' = obs /\ UNCHANGED env
+          ELSE \* the server stops reading in the middle of the content: the client's write must time out
+               /\ env' = [env EXCEPT !.budget = @ - 1, !.nfault = @ + 1,
+                                      !.hist = Append(@, [v |-> "CONTENT", m |-> cl.m, r |-> 0, c |-> "cstall", sh |-> "none"])]
+               /\ IF ~cl.armed THEN obs' = Observe(obs, [ev |-> "stall"]) /\ Goto("blocked")
+                  ELSE /\ obs' = CloseConn(Observe(obs, [ev |-> "stall"]))
+                       /\ cl' = [cl EXCEPT !.se[cl.m] = LocalErr("writecontent"), !.pc = "nextMsg", !.dead = TRUE]
+     ELSE /\ UNCHANGED env
+          /\ IF DEV_ImplicitDot
+             THEN obs' = obs /\ cl' = [cl EXCEPT !.se[cl.m] = LocalErr("writecontent"), !.pc = "nextMsg", !.dotOpen = cl.m]
+             ELSE obs' = CloseConn(obs) /\ cl' = [cl EXCEPT !.se[cl.m] = LocalErr("writecontent"), !.pc = "nextMsg", !.dead = TRUE]
 
 (* smtp.go:400 dataCloser.Close: "." and the reply to it *)
 CloseData ==
